@@ -93,7 +93,19 @@ def plan(prop, tier, seed):
         # control hazards and ecall draining must be handled whatever the memory latencies are
         shards += [{"kind": "cached", "n": 150 if q else 1500, "shard": i, "hz": False} for i in range(3 if q else 12)]
         shards += [{"kind": "reload", "n": 120 if q else 2500, "shard": i, "hz": False} for i in range(2 if q else 6)]
+    # one LONG run: every counter (cycles, instructions, branches, cache hits and accesses) passes 2^16 - the bounded
+    # programs above never leave the range a narrow counter type would still get right
+    shards += [{"kind": "long", "shard": 0, "hz": hz}]
     return shards
+
+
+def long_case(hz, iters=9000):
+    body = [{"m": "lw", "rd": 3, "rs1": 31, "imm": 0}, {"m": "lw", "rd": 4, "rs1": 31, "imm": 8}, {"m": "add", "rd": 3, "rs1": 3, "rs2": 4}, {"m": "sw", "rs1": 31, "rs2": 3, "imm": 0},
+            {"m": "lw", "rd": 5, "rs1": 31, "imm": 16}, {"m": "sw", "rs1": 31, "rs2": 5, "imm": 24}, {"m": "lw", "rd": 6, "rs1": 31, "imm": 32}, {"m": "sw", "rs1": 31, "rs2": 1, "imm": 8},
+            {"m": "lw", "rd": 7, "rs1": 31, "imm": 24}, {"m": "beq", "rs1": 0, "rs2": 7, "imm": 8}, dict(NOP), {"m": "addi", "rd": 1, "rs1": 1, "imm": 1}]
+    prog = [{"m": "lui", "rd": 2, "imm": iters >> 12}, dict(NOP), dict(NOP), {"m": "addi", "rd": 2, "rs1": 2, "imm": iters & 0x7FF}, dict(NOP), dict(NOP)] + body + [{"m": "bne", "rs1": 1, "rs2": 2, "imm": -4 * len(body)}, {"m": "addi", "rd": 17, "rs1": 0, "imm": 93}, {"m": "addi", "rd": 10, "rs1": 1, "imm": 0}, {"m": "ecall"}]
+    return {"kind": "pipe", "prog": prog, "regs": {"31": 0x4000}, "mem": {str(0x4000 + 8): 1, str(0x4000 + 16): 7}, "hz": hz, "max_instr": 160000,
+            "dcache": {"ib": 1, "bb": 1, "assoc": 2, "policy": "lru", "wt": False, "pen": 1}, "icache": {"ib": 1, "bb": 1, "assoc": 1, "policy": "lru", "pen": 0}}
 
 
 def directed_cases(hz):
@@ -152,6 +164,13 @@ def run_shard(spec, res):
             guarded(run_case, prop, case, res)
             res.evaluations += 1
             res.sample(case, 2)
+        return
+    if kind == "long":
+        # (quick: cycles and instructions pass 2^16; thorough: cache accesses and hits as well)
+        case = long_case(hz, 6000 if spec["tier"] == "quick" else 9000)
+        guarded(run_case, prop, case, res)
+        res.evaluations += 1
+        res.count("long_runs")
         return
     if kind == "reload":
         for it in range(spec["n"]):
@@ -427,6 +446,7 @@ def run_five(case, res, prop, ref, on_sim=None):
     total_pen = 0
     rfault = None
     decode_stall_seen = False
+    slog_ok = 0
     while t < limit:
         if sim.is_done():
             break
@@ -522,13 +542,17 @@ def run_five(case, res, prop, ref, on_sim=None):
             # documented schedule - a C07 matter - may already be past it: then the golden output is a prefix of the real one)
             res.violation(VAL, "output-log", "after step %d output %r is not a prefix of the golden output events %r" % (t, o[-60:], ref.out[-60:]), case)
             return None
-        if ref.timeout and len(slog.log) > len(ref_stores):
-            if slog.log[: len(ref_stores)] != ref_stores:
-                res.violation(VAL, "store-log", "after step %d the first %d stores differ from the golden store events" % (t, len(ref_stores)), case)
+        # (incremental: only the entries logged since the last step are compared)
+        nl = len(slog.log)
+        if nl > slog_ok:
+            upto = min(nl, len(ref_stores))
+            if slog.log[slog_ok:upto] != ref_stores[slog_ok:upto]:
+                res.violation(VAL, "store-log", "after step %d store log %s is not a prefix of the golden store events %s" % (t, slog.log[-3:], ref_stores[max(0, nl - 3) : nl]), case)
                 return None
-        elif slog.log != ref_stores[: len(slog.log)]:
-            res.violation(VAL, "store-log", "after step %d store log %s is not a prefix of the golden store events %s" % (t, slog.log[-3:], ref_stores[max(0, len(slog.log) - 3) : len(slog.log)]), case)
-            return None
+            if nl > len(ref_stores) and not ref.timeout:
+                res.violation(VAL, "store-log", "after step %d store log %s is not a prefix of the golden store events %s" % (t, slog.log[-3:], ref_stores[max(0, nl - 3) : nl]), case)
+                return None
+            slog_ok = upto
         if ret is not (not sim.is_done()):
             res.violation("C13", "step-return", "five-stage step() returned %r but is_done()=%r" % (ret, sim.is_done()), case)
     res.count("stores_logged", len(slog.log))
